@@ -18,15 +18,21 @@ func MatchWildcardRegexp(query string, exact bool) *regexp.Regexp {
 	regexpQuery := strings.ReplaceAll(query, `[`, `\[`)
 	regexpQuery = strings.ReplaceAll(regexpQuery, `*`, `[`+legalChars+`]*?`) // Not greedy
 	regexpQuery = strings.ReplaceAll(regexpQuery, `...`, `.*`)               // greedy
-	if exact {
-		return regexp.MustCompile(fmt.Sprintf("^%s$", regexpQuery))
-	}
-	if strings.HasSuffix(query, "/") {
-		// the root (or a path given with a trailing slash) is a prefix of everything below it
-		return regexp.MustCompile(fmt.Sprintf("^%s", regexpQuery))
-	}
 	// the path itself or anything below it at a path element boundary: /a/b does not select /a/bc
-	return regexp.MustCompile(fmt.Sprintf(`^%s(/|\[|$)`, regexpQuery))
+	expr := fmt.Sprintf(`^%s(/|\[|$)`, regexpQuery)
+	if exact {
+		expr = fmt.Sprintf("^%s$", regexpQuery)
+	} else if strings.HasSuffix(query, "/") {
+		// the root (or a path given with a trailing slash) is a prefix of everything below it
+		expr = fmt.Sprintf("^%s", regexpQuery)
+	}
+	// The query is request text: it may not form a valid expression (e.g. an element name containing '(').
+	// Callers must treat nil as "invalid path"
+	re, err := regexp.Compile(expr)
+	if err != nil {
+		return nil
+	}
+	return re
 }
 
 // MatchWildcardChNameRegexp creates a Regular Expression from a wild-carded path
